@@ -74,6 +74,10 @@ def nearest(env, ns, dconv, qconv):
     """nearest: the station at minimum circular distance, AssertionError iff that distance exceeds the tolerance;
     longitudes reported in the query's convention."""
     ds, slon, slat = _dset(env, ns, dconv)
+    _nearest_claims(env, ds, slon, slat, ns, qconv)
+
+
+def _nearest_claims(env, ds, slon, slat, ns, qconv, note=""):
     qlon, qlat = _lon(env, "qlon", qconv), env.real("qlat", lo=-90.0, hi=90.0)
     if qconv == 180:
         env.assume(qlon < 0)
@@ -84,18 +88,36 @@ def nearest(env, ns, dconv, qconv):
         with env.lazy_sqrt():
             out = ds.spec.sel([qlon], [qlat], method="nearest", tolerance=tol)
     except AssertionError:
-        env.claim(AND(*[NOT(w) for w in within]), "nearest fails only when no station is within the tolerance")
+        env.claim(AND(*[NOT(w) for w in within]), note + "nearest fails only when no station is within the tolerance")
         return
-    env.claim(OR(*within), "nearest succeeds only when a station is within the tolerance")
-    env.claim(out.sizes["site"] == 1, "one station per query point")
+    env.claim(OR(*within), note + "nearest succeeds only when a station is within the tolerance")
+    env.claim(out.sizes["site"] == 1, note + "one station per query point")
     tag = float(out.efth.values.ravel()[0])
     k = TAGS.index(tag) if tag in TAGS else -1
-    env.claim(k >= 0, "an existing station is returned", {"tag": tag})
+    env.claim(k >= 0, note + "an existing station is returned", {"tag": tag})
     if k < 0:
         return
-    env.claim(AND(*[d2[k] <= d2[j] for j in range(ns) if j != k]), "the returned station is the one at minimum distance (longitude difference the short way round)", {"returned": k})
+    env.claim(AND(*[d2[k] <= d2[j] for j in range(ns) if j != k]), note + "the returned station is the one at minimum distance (longitude difference the short way round)", {"returned": k})
     glon, glat = out.lon.values.ravel()[0], out.lat.values.ravel()[0]
-    env.claim(AND(_lon_ok(env, glon, slon[k], qconv), near(env, glat, slat[k], rel=0.0, abs_=0.0)), "coordinates of the returned station, longitude in the query's convention")
+    env.claim(AND(_lon_ok(env, glon, slon[k], qconv), near(env, glat, slat[k], rel=0.0, abs_=0.0)), note + "coordinates of the returned station, longitude in the query's convention")
+
+
+@harness(P, quick=[dict(ns=2, dconv=360, first="bbox", fconv=180, qconv=360), dict(ns=2, dconv=180, first="bbox", fconv=360, qconv=180), dict(ns=2, dconv=360, first="nearest", fconv=180, qconv=360)],
+         thorough=grid(ns=[2, 3], dconv=[360, 180], first=["bbox", "nearest"], fconv=[360, 180], qconv=[360, 180]), max_paths=4000, time_budget=300, hard_timeout=700, time_budget_thorough=1800, hard_timeout_thorough=2100)
+def nearest_after(env, ns, dconv, first, fconv, qconv):
+    """the same claims as `nearest` for a selection made AFTER an earlier selection on the same dataset object
+    (a fixed box over part of the globe, or a fixed nearest query with a tolerance that accepts everything) in convention `fconv`:
+    what one query reports must not depend on the queries before it."""
+    ds, slon, slat = _dset(env, ns, dconv)
+    try:
+        if first == "bbox":
+            box = ([-60.0, -1.0] if fconv == 180 else [181.0, 300.0])   # part of the globe: selects a subset of the stations
+            ds.spec.sel(box, [-89.0, 89.0], method="bbox", tolerance=1.0)
+        else:
+            ds.spec.sel([-20.0 if fconv == 180 else 340.0], [0.0], method="nearest", tolerance=1000.0)
+    except (ValueError, AssertionError):
+        pass
+    _nearest_claims(env, ds, slon, slat, ns, qconv, note="after an earlier selection: ")
 
 
 def _conv(x, conv):
